@@ -124,12 +124,12 @@ type inst struct {
 	m       amap
 	s       aset
 
-	want      map[string][]byte // the plain map model
-	committed map[string][]byte // want at the last Commit (empty before the first)
-	commits   int
+	want       map[string][]byte // the plain map model
+	committed  map[string][]byte // want at the last Commit (empty before the first)
+	commits    int
 	commitRoot [32]byte // Root() when the last Commit returned
-	muts      int  // state-changing calls so far (for the non-triviality rule)
-	tainted   bool // reopened with un-committed changes: the property does not speak about it any more
+	muts       int      // state-changing calls so far (for the non-triviality rule)
+	tainted    bool     // reopened with un-committed changes: the property does not speak about it any more
 }
 
 func (in *inst) isMap() bool { return in.flavour != "set" }
@@ -1376,7 +1376,9 @@ func quietRun(r *hx.Run, ops []string) []failRec {
 	return ss.fails
 }
 
-func sameFail(a, b failRec) bool { return a.oracle == b.oracle && a.op == b.op && a.flavour == b.flavour }
+func sameFail(a, b failRec) bool {
+	return a.oracle == b.oracle && a.op == b.op && a.flavour == b.flavour
+}
 
 func hasFail(fs []failRec, t failRec) bool {
 	for _, f := range fs {
